@@ -1131,8 +1131,9 @@ class OptionStore:
                 # machine file, command line).  This way the effective value
                 # can be easily recomputed.
                 opt = self.get_value_object(key)
-                dirty |= not opt.yielding and bool(opt.parent)
-                opt.yielding = bool(opt.parent)
+                # Not bool(opt.parent): a boolean option is falsy when its value is false.
+                dirty |= not opt.yielding and opt.parent is not None
+                opt.yielding = opt.parent is not None
         return dirty
 
     def reset_prefixed_options(self, old_prefix: str, new_prefix: str) -> None:
